@@ -26,6 +26,11 @@ def jobs(tier):
                       pre=[f"0 <= i < {n}", f"0 <= j < {n}"], fixed={"n": n}, timeout=400,
                       functions=["ProbabilisticSubcircuit.__init__", "ProbabilisticSubcircuit.simulated_probability_by_str", "UnitarySerializedEmulator._make_subcircuit"],
                       note="emulated distribution: >= 0, sums to 1, |state|^2, string view == integer view with little-endian keys, support on the acted-on bits"))
+    for n in ((1, 2) if q else (1, 2, 3)):
+        out.append(CH(name=f"c15_history_n{n}", base="c15_history", func=f"{H}:c15_history", params=[("i", "int"), ("p0", "int"), ("p1", "int")],
+                      pre=[f"0 <= i < {n}", "0 <= p0 <= 3", "0 <= p1 <= 3"], fixed={"n": n}, timeout=400,
+                      functions=["ReadoutSubcircuit.accept_readout", "RelativeFrequencySubcircuit.relative_frequency_by_str", "IndependentSubcircuitsJob.execute"],
+                      note="history: read both frequency views, execute the same job again (more readouts), read again: views agree with each other and with the readout counts"))
     for m in (2, 4, 8):
         out.append(SMT(name=f"normalise_m{m}", func="vf.smt.kernel:q_normalise", kwargs={"m": m}, timeout=400,
                        functions=["ProbabilisticSubcircuit.__init__ (translated from its AST)"],
